@@ -167,6 +167,10 @@ def histories():
                   note="type change in version 2 of a field that exists since version 0: the old type spans two versions (versions_as 0..1)"))
     H.append(Hist("h8", [LF("a", "u32"), LF("b", "u32", removed=1), LF("c", "u32")], 2, repr_c=True, tier="q",
                   note="packed repr(C): middle field removed (AbiRemoved): version 0 wire != memory layout of version 1"))
+    H.append(Hist("h13", [LF("a", "u32"), LF("b", "u32", added=2), LF("c", "u32", added=1)], 3, repr_c=True, tier="q",
+                  note="packed repr(C): two fields added in different versions, the earlier-declared one is the newer (min_safe_version must be the maximum, not the last)"))
+    H.append(Hist("h14", [LF("a", "u16", added=1), LF("b", "u16", removed=2), LF("c", "u32")], 3, repr_c=True, tier="t",
+                  note="packed repr(C): a field added in version 1 is declared before a field removed in version 2"))
     return H
 
 
